@@ -3,6 +3,7 @@
 package node
 
 import (
+	"context"
 	"encoding/json"
 	"errors"
 	"fmt"
@@ -16,6 +17,9 @@ import (
 	"github.com/my-cloud/ruthenium/validatornode/application/verification"
 	"github.com/my-cloud/ruthenium/validatornode/domain/encryption"
 	"github.com/my-cloud/ruthenium/validatornode/domain/ledger"
+	"github.com/my-cloud/ruthenium/validatornode/presentation/api/history"
+
+	gp2p "github.com/leprosus/golang-p2p"
 )
 
 // ---------------------------------------------------------------- settings
@@ -369,6 +373,9 @@ type Node struct {
 	Utxos     *verification.UtxosRegistry
 	Chain     *verification.Blockchain
 	Pool      *validation.TransactionsPool
+
+	blocksCtlOnce sync.Once
+	blocksCtl     *history.BlocksController
 }
 
 // New wires the real components exactly as validatornode/main.go does.
@@ -399,9 +406,21 @@ func (n *Node) AllBlocks() []*ledger.Block {
 	}
 }
 
-// ServeBlocks answers a blocks request the way the real BlocksController does (JSON of Blocks(h)).
+// ServeBlocks answers a blocks request THROUGH the real BlocksController of the validator node's API (one controller
+// per node, kept for the node's lifetime, as in validatornode/main.go): what a peer receives for GetBlocks(h).
 func (n *Node) ServeBlocks(h uint64) ([]byte, error) {
-	return json.Marshal(n.Chain.Blocks(h))
+	n.blocksCtlOnce.Do(func() { n.blocksCtl = history.NewBlocksController(n.Chain) })
+	reqBytes, err := json.Marshal(h)
+	if err != nil {
+		return nil, err
+	}
+	req := gp2p.Data{}
+	req.SetBytes(reqBytes)
+	res, err := n.blocksCtl.HandleBlocksRequest(context.Background(), req)
+	if err != nil {
+		return nil, err
+	}
+	return res.GetBytes(), nil
 }
 
 // ---------------------------------------------------------------- observation (canonical)
